@@ -42,10 +42,11 @@ const (
 	behZigzag          // common versions: second highest first, then descending, the highest last
 	behPermuted        // common versions in a permutation chosen by the scenario's order seed
 	behUnsupportedBare // discovery unsupported, reported as a message-level error: one failed item without Operation
+	behForeignMajor    // the common versions plus versions of other majors whose minors collide with 1.x ones (2.1, 2.0, 3.0, 0.4)
 	nBehaviours
 )
 
-var behNames = []string{"conformant", "discovery-unsupported", "lists-unoffered", "unordered", "duplicates", "empty-list", "zigzag", "permuted", "discovery-unsupported-bare"}
+var behNames = []string{"conformant", "discovery-unsupported", "lists-unoffered", "unordered", "duplicates", "empty-list", "zigzag", "permuted", "discovery-unsupported-bare", "foreign-majors"}
 
 type C13Sc struct {
 	Client   int  `json:"client"`    // bitmask over 1.0..1.4, non-empty
@@ -134,6 +135,9 @@ func c13Grid(tier string) []*C13Sc {
 			}
 			for o := 1; o <= 3; o++ {
 				out = append(out, &C13Sc{Client: c, Server: s, Beh: behPermuted, Order: o, Enforce: -1, FollowUp: true})
+				if o < 3 {
+					out = append(out, &C13Sc{Client: c, Server: s, Beh: behForeignMajor, Order: o, Enforce: -1, FollowUp: true})
+				}
 				// the discovery reply travels under a header version of the server's choosing
 				out = append(out, &C13Sc{Client: c, Server: s, Beh: []int{behConformant, behUnsupported, behUnsupportedBare}[(c+s+o)%3], RespHdr: o, Enforce: -1, FollowUp: true})
 			}
@@ -283,6 +287,18 @@ func execC13(x *X, scAny any) {
 					}
 				case behPermuted:
 					list = permute(common, sc.Order+7)
+				case behForeignMajor:
+					// a server that also speaks KMIP 2.x / 3.x (or something older) returns its whole list
+					hi := []kmip.ProtocolVersion{{ProtocolVersionMajor: 3, ProtocolVersionMinor: 0}, {ProtocolVersionMajor: 2, ProtocolVersionMinor: 1}, {ProtocolVersionMajor: 2, ProtocolVersionMinor: 0}}
+					lo := []kmip.ProtocolVersion{{ProtocolVersionMajor: 0, ProtocolVersionMinor: 4}}
+					switch sc.Order % 3 {
+					case 0:
+						list = append(append(hi, common...), lo...)
+					case 1:
+						list = append(append(slices.Clone(common), hi...), lo...)
+					default:
+						list = append(append(lo, hi[1:]...), common...)
+					}
 				}
 				advertised = list
 				ri.ResponsePayload = &payloads.DiscoverVersionsResponsePayload{ProtocolVersion: list}
